@@ -128,8 +128,22 @@ def run(ctx: Ctx) -> None:
             writes = [c for b in w.body for c in ast.walk(b) if isinstance(c, ast.Call) and isinstance(c.func, ast.Attribute) and c.func.attr == "write" and isinstance(c.func.value, ast.Name) and c.func.value.id == fh]
             head = bool(writes) and "target" in norm(writes[0].args[0]) and ":" in norm(writes[0].args[0])
             loops_ = [f for b in w.body for f in ast.walk(b) if isinstance(f, ast.For) and any(isinstance(x, ast.Name) and x.id == dname for x in ast.walk(f.iter)) and isinstance(f.target, ast.Name)]
-            each = bool(loops_) and any(isinstance(c, ast.Call) and isinstance(c.func, ast.Attribute) and c.func.attr == "write" and any(isinstance(x, ast.Name) and x.id == loops_[0].target.id for x in ast.walk(c))
-                                        for b in loops_[0].body for c in ast.walk(b))
+            each = False
+            if loops_:
+                # names that carry the current key: the loop variable and locals computed from it inside the loop
+                carry = {loops_[0].target.id}
+                grew = True
+                while grew:
+                    grew = False
+                    for b in loops_[0].body:
+                        for a_ in ast.walk(b):
+                            if isinstance(a_, ast.Assign) and any(isinstance(x, ast.Name) and x.id in carry for x in ast.walk(a_.value)):
+                                for t in a_.targets:
+                                    if isinstance(t, ast.Name) and t.id not in carry:
+                                        carry.add(t.id)
+                                        grew = True
+                each = any(isinstance(c, ast.Call) and isinstance(c.func, ast.Attribute) and c.func.attr == "write" and any(isinstance(x, ast.Name) and x.id in carry for x in ast.walk(c))
+                           for b in loops_[0].body for c in ast.walk(b))
             ok = head and each
     ctx.ob("R19.3", "preprocessor:make_pcpp_preprocessor|depfile names the target and every collected file", ok, msg="the pcpp depfile no longer lists the target followed by every file the filter collected", node=p, mod=pp)
     pf = pp.func("_pcpp_filter")
